@@ -1,17 +1,21 @@
 import SalsaVerif.Drive.Common
 import SalsaVerif.Drive.Edges
+import SalsaVerif.Drive.Cycle
 import SalsaVerif.Drive.Lru
 import SalsaVerif.Drive.Intern
 import SalsaVerif.Drive.SyncDG
+import SalsaVerif.Drive.Core
 
 /-! `svdriver <model>` — reads an op file on stdin, prints one line per op. -/
 def main (args : List String) : IO UInt32 := do
   match args with
   | ["edges"] => SalsaVerif.Drive.Edges.main; return 0
+  | ["cycle"] => SalsaVerif.Drive.Cycle.main; return 0
   | ["dg"] => SalsaVerif.Drive.SyncDG.main; return 0
   | ["lru"] => SalsaVerif.Drive.Lru.main; return 0
   | ["rq"] => SalsaVerif.Drive.Intern.mainRq; return 0
   | ["intern"] => SalsaVerif.Drive.Intern.mainIntern; return 0
+  | ["core"] => SalsaVerif.Drive.Core.main; return 0
   | _ =>
-    IO.eprintln "usage: svdriver <model>  (models: edges, dg, lru, rq, intern)"
+    IO.eprintln "usage: svdriver <model>  (models: edges, cycle, dg, lru, rq, intern, core)"
     return 2
